@@ -393,5 +393,13 @@ def r14_9(ctx):
         raise AnalysisError("range search of get_ranges not found")
 
 
+def r14_10(ctx):
+    """R14.10 what `save` writes is what a fresh server reads: the deferred assignments to choice members are applied for every choice
+    when the saved file is loaded (C05 R05.9) - otherwise the `defaults` channel of a fresh server differs from the running one."""
+    from . import c05
+    from .common import delegate
+    delegate(ctx, c05.r05_9, lambda c: "deferred member assignments" in c)
+
+
 def rules():
-    return [("R14.9", r14_9, 1), ("R14.1", r14_1, 9), ("R14.2", r14_2, 5), ("R14.3", r14_3, 3), ("R14.4", r14_4, 20), ("R14.5", r14_5, 10), ("R14.6", r14_6, 5), ("R14.7", r14_7, 1), ("R14.8", r14_8, 6)]
+    return [("R14.10", r14_10, 1), ("R14.9", r14_9, 1), ("R14.1", r14_1, 9), ("R14.2", r14_2, 5), ("R14.3", r14_3, 3), ("R14.4", r14_4, 20), ("R14.5", r14_5, 10), ("R14.6", r14_6, 5), ("R14.7", r14_7, 1), ("R14.8", r14_8, 6)]
